@@ -73,6 +73,16 @@ pub struct Case {
     /// invoke the API twice in a row on the same dataset
     #[serde(default)]
     pub repeat: bool,
+    /// the dataset carries per-sample weights (owned layout, in-place APIs): a weight belongs to
+    /// its row - wherever weights are visible they must be the rows' own, and after the call
+    /// returns they must be where they were
+    #[serde(default)]
+    pub weighted: bool,
+    /// multi-column targets: the evaluation closure returns ONE overall value (an array of length
+    /// one) instead of one value per target column; the reported score of every column is then
+    /// the mean of that value (the accumulation broadcasts it)
+    #[serde(default)]
+    pub eval_scalar: bool,
 }
 
 #[derive(Clone, Debug, Default, Serialize, Deserialize)]
@@ -267,6 +277,12 @@ impl<'c, I: TargetDim> Fit<ArrayView2<'c, f64>, ArrayView<'c, f64, I>, SimError>
             }
             (Err(e), _) | (_, Err(e)) => log.violations.push(e),
         }
+        // sample weights, where a training part shows any, are the rows' own
+        if let (Some(w), Ok(t)) = (train.weights(), target_ids(&train.as_targets(), self.ncols)) {
+            if w.len() == t.len() && w.iter().zip(&t).any(|(w, id)| *w != weight_of(*id)) {
+                log.violations.push("a training part pairs a sample with another sample's weight".into());
+            }
+        }
         log.fits.push((fold, self.model));
         let here = Fault { fold, model: self.model, stage: Stage::Fit };
         if self.panic_at == Some(here) {
@@ -437,13 +453,13 @@ fn check_scores(case: &Case, got: &[f64], ncols: usize, out: &mut CaseOut) {
             let expect = if case.f32acc {
                 let mut acc = 0f32;
                 for i in 0..case.k {
-                    acc += eval_value(case, i, m, c) as f32;
+                    acc += eval_value(case, i, m, if case.eval_scalar { 0 } else { c }) as f32;
                 }
                 (acc / case.k as f32) as f64
             } else {
                 let mut acc = 0f64;
                 for i in 0..case.k {
-                    acc += eval_value(case, i, m, c);
+                    acc += eval_value(case, i, m, if case.eval_scalar { 0 } else { c });
                 }
                 acc / case.k as f64
             };
@@ -494,12 +510,19 @@ fn drive_cv<I, D, S>(
             _i: std::marker::PhantomData,
         })
         .collect();
-    let small_shape = ds.targets.raw_dim().remove_axis(Axis(0));
+    let mut small_shape = ds.targets.raw_dim().remove_axis(Axis(0));
+    if case.eval_scalar {
+        // one overall value whatever the number of target columns
+        for s in small_shape.slice_mut() {
+            *s = 1;
+        }
+    }
+    let nvals = small_shape.size();
     macro_rules! go {
         ($t:ty) => {{
             let r: Result<Array<$t, I>, SimError> = ds.cross_validate(case.k, &fits, |pred, truth| {
                 eval_body(case, &geo, ncols, log, pred, truth).map(|v| {
-                    Array::from_shape_vec(small_shape.clone(), v.into_iter().map(|x| x as $t).collect()).expect("score shape")
+                    Array::from_shape_vec(small_shape.clone(), v.into_iter().take(nvals).map(|x| x as $t).collect()).expect("score shape")
                 })
             });
             r.map(|a| a.iter().map(|&v| v as f64).collect::<Vec<f64>>())
@@ -665,6 +688,26 @@ where
     }
 }
 
+/// weight of the row with identity `id` (exactly representable in f32)
+fn weight_of(id: usize) -> f32 {
+    7000.0 + id as f32
+}
+/// one weight per buffer row, derived from the row's identity tag in the targets
+fn row_weights(b: &Buffers) -> Array1<f32> {
+    Array1::from_iter((0..b.tgt2.nrows()).map(|r| weight_of(id_of(b.tgt2[[r, 0]]).0)))
+}
+fn check_weights_after(case: &Case, b: &Buffers, now: Option<&[f32]>, log: &SharedLog) {
+    if !case.weighted {
+        return;
+    }
+    let want = row_weights(b);
+    match now {
+        Some(w) if w == want.as_slice().unwrap() => {}
+        Some(_) => log.borrow_mut().violations.push(format!("after {:?} returned the sample weights are no longer in their original order", case.api)),
+        None => log.borrow_mut().violations.push(format!("after {:?} returned the dataset lost its sample weights", case.api)),
+    }
+}
+
 /// Run one case against the real `linfa::DatasetBase` code.
 pub fn run_case(case: &Case) -> CaseOut {
     let mut b = make_buffers(case);
@@ -771,11 +814,12 @@ fn run_once(case: &Case, b: &mut Buffers, pristine_rec: &Array2<f64>, pristine_t
                         finish_cv(case, res, 1, &log, &mut out);
                     } else if case.layout == Layout::Owned {
                         let owned = DatasetBase::new(b.rec.clone(), t1.clone());
-                        let mut owned = owned;
+                        let mut owned = if case.weighted { owned.with_weights(row_weights(b)) } else { owned };
                         match case.api {
                             Api::IterFold => drive_iter_fold(case, &mut owned, geo.clone(), &log, &mut out),
                             _ => drive_cv(case, &mut owned, geo.clone(), &log, &mut out),
                         }
+                        check_weights_after(case, b, owned.weights(), &log);
                         b.rec.assign(owned.records());
                         t1.assign(&owned.as_targets());
                     } else {
@@ -783,11 +827,13 @@ fn run_once(case: &Case, b: &mut Buffers, pristine_rec: &Array2<f64>, pristine_t
                     }
                     b.tgt2.column_mut(0).assign(&t1);
                 } else if case.layout == Layout::Owned {
-                    let mut owned = DatasetBase::new(b.rec.clone(), b.tgt2.clone());
+                    let owned = DatasetBase::new(b.rec.clone(), b.tgt2.clone());
+                    let mut owned = if case.weighted { owned.with_weights(row_weights(b)) } else { owned };
                     match case.api {
                         Api::IterFold => drive_iter_fold(case, &mut owned, geo.clone(), &log, &mut out),
                         _ => drive_cv(case, &mut owned, geo.clone(), &log, &mut out),
                     }
+                    check_weights_after(case, b, owned.weights(), &log);
                     b.rec.assign(owned.records());
                     b.tgt2.assign(&owned.as_targets());
                 } else {
@@ -877,12 +923,12 @@ pub fn plan(tier: &str, seed: u64) -> Plan {
             // fold(): every layout, single/multi target
             for layout in [Layout::Owned, Layout::ViewContig, Layout::ViewStrided, Layout::OwnedColMajor, Layout::ViewTransposed] {
                 for nt in [0usize, 2] {
-                    cases.push(Case { api: Api::Fold, n, k, nf: 1 + (n + k) % 3, nt, layout, models: 1, faults: vec![], f32acc: false, dyadic: true, val_seed: 0, panic_at: None, special: false, repeat: false });
+                    cases.push(Case { api: Api::Fold, n, k, nf: 1 + (n + k) % 3, nt, layout, models: 1, faults: vec![], f32acc: false, dyadic: true, val_seed: 0, panic_at: None, special: false, repeat: false, weighted: false, eval_scalar: false });
                 }
             }
             for layout in [Layout::Owned, Layout::ViewContig] {
                 for nt in [0usize, 1, 3] {
-                    cases.push(Case { api: Api::IterFold, n, k, nf: 1 + (n * k) % 4, nt, layout, models: 1, faults: vec![], f32acc: false, dyadic: true, val_seed: 0, panic_at: None, special: false, repeat: false });
+                    cases.push(Case { api: Api::IterFold, n, k, nf: 1 + (n * k) % 4, nt, layout, models: 1, faults: vec![], f32acc: false, dyadic: true, val_seed: 0, panic_at: None, special: false, repeat: false, weighted: layout == Layout::Owned && (n + k + nt) % 2 == 0, eval_scalar: false });
                 }
             }
             // cross_validate: fault plans — all singles everywhere; all pairs on the small grid
@@ -910,6 +956,8 @@ pub fn plan(tier: &str, seed: u64) -> Plan {
                         panic_at: None,
                         special: h & 512 != 0 && h & 256 == 0,
                         repeat: h & 1024 != 0,
+                        weighted: h & 2048 != 0,
+                        eval_scalar: nt >= 2 && !single_api && h & 4096 != 0,
                     });
                 }
             }
@@ -957,13 +1005,15 @@ pub fn plan(tier: &str, seed: u64) -> Plan {
             panic_at: None,
             special: r.chance(0.2),
             repeat: r.chance(0.3),
+            weighted: r.chance(0.3),
+            eval_scalar: nt >= 2 && r.chance(0.25),
         });
     }
     // datasets without feature columns (legal: only the targets carry information)
     for (n, k) in [(4usize, 2usize), (7, 3), (9, 4), (6, 6)] {
         for nt in [0usize, 2] {
             for api in [Api::Fold, Api::IterFold, Api::CrossValidate] {
-                cases.push(Case { api, n, k, nf: 0, nt, layout: Layout::Owned, models: 2, faults: vec![], f32acc: false, dyadic: true, val_seed: 5, panic_at: None, special: false, repeat: false });
+                cases.push(Case { api, n, k, nf: 0, nt, layout: Layout::Owned, models: 2, faults: vec![], f32acc: false, dyadic: true, val_seed: 5, panic_at: None, special: false, repeat: false, weighted: false, eval_scalar: false });
             }
         }
     }
@@ -971,7 +1021,7 @@ pub fn plan(tier: &str, seed: u64) -> Plan {
     // the dataset must still come back intact and the result is an empty score array
     for (n, k) in [(5usize, 2usize), (7, 3), (9, 9)] {
         for nt in [0usize, 2] {
-            cases.push(Case { api: Api::CrossValidate, n, k, nf: 2, nt, layout: Layout::ViewContig, models: 0, faults: vec![], f32acc: false, dyadic: true, val_seed: 3, panic_at: None, special: false, repeat: false });
+            cases.push(Case { api: Api::CrossValidate, n, k, nf: 2, nt, layout: Layout::ViewContig, models: 0, faults: vec![], f32acc: false, dyadic: true, val_seed: 3, panic_at: None, special: false, repeat: false, weighted: false, eval_scalar: false });
         }
     }
     // panic probes (observation only)
@@ -993,6 +1043,8 @@ pub fn plan(tier: &str, seed: u64) -> Plan {
                     panic_at: Some(Fault { fold: k - 1, model: 0, stage }),
                     special: false,
                     repeat: false,
+                    weighted: false,
+                    eval_scalar: false,
                 });
             }
         }
@@ -1068,6 +1120,16 @@ pub fn shrink_candidates(c: &Case) -> Vec<Case> {
     if c.repeat {
         let mut d = c.clone();
         d.repeat = false;
+        push(&mut v, d);
+    }
+    if c.weighted {
+        let mut d = c.clone();
+        d.weighted = false;
+        push(&mut v, d);
+    }
+    if c.eval_scalar {
+        let mut d = c.clone();
+        d.eval_scalar = false;
         push(&mut v, d);
     }
     v
